@@ -324,4 +324,311 @@ theorem hostOK_split_colon {a b : List Char} (h : hostOK (a ++ ':' :: b) = true)
   | case5 => exact ⟨rfl, h, rfl⟩
 
 
+/-! ### what `parseHost` / `parseAuthority` accept -/
+
+theorem splitAtPct25_append {l h1 z : List Char} (h : splitAtPct25 l = some (h1, z)) : l = h1 ++ z := by
+  induction l generalizing h1 z with
+  | nil => simp [splitAtPct25] at h
+  | cons c rest ih =>
+    unfold splitAtPct25 at h
+    split at h
+    · simp at h; obtain ⟨rfl, rfl⟩ := h; rfl
+    · split at h
+      · rename_i a b heq
+        simp at h; obtain ⟨rfl, rfl⟩ := h
+        simp [ih heq]
+      · cases h
+
+theorem splitAtPct25_none {l : List Char} (h : '%' ∉ l) : splitAtPct25 l = none := by
+  induction l with
+  | nil => rfl
+  | cons c rest ih =>
+    have hc : c ≠ '%' := fun e => h (e ▸ List.mem_cons_self)
+    have hr : '%' ∉ rest := fun hm => h (List.mem_cons_of_mem _ hm)
+    simp [splitAtPct25, hc, ih hr]
+
+theorem unescapeHost_some {l d : List Char} (h : unescapeHost l = some d) : hostOK l = true ∧ d = goDecode l := by
+  unfold unescapeHost at h
+  split at h
+  · rename_i hk; simp at h; exact ⟨hk, h.symm⟩
+  · cases h
+
+theorem unescapeZone_some {l d : List Char} (h : unescapeZone l = some d) : zoneOK l = true := by
+  unfold unescapeZone at h
+  split at h
+  · rename_i hk; exact hk
+  · cases h
+
+/-- every byte of a host that `parseHost` accepts survives browser preprocessing and is no backslash -/
+theorem parseHost_safe {hp hs : List Char} (h : parseHost hp = some hs) : ∀ c ∈ hp, safeC c := by
+  unfold parseHost at h
+  split at h
+  · -- bracket
+    unfold parseBracketHost at h
+    split at h
+    · rename_i hbr
+      split at h
+      · cases h
+      · split at h
+        · exact hostOK_safe (unescapeHost_some h).1
+        · rename_i h1 z hsplit
+          split at h
+          · rename_i a b c ha hb hc
+            have e1 := splitAtPct25_append hsplit
+            have e2 := split_last hbr
+            intro x hx
+            rw [e2, e1] at hx
+            simp only [List.mem_append, List.mem_cons] at hx
+            rcases hx with (hx | hx) | hx
+            · exact hostOK_safe (unescapeHost_some ha).1 x hx
+            · exact zoneOK_safe (unescapeZone_some hb) x hx
+            · exact hostOK_safe (unescapeHost_some hc).1 x (by simpa using hx)
+          · cases h
+    · cases h
+  · split at h
+    · cases h
+    · exact hostOK_safe (unescapeHost_some h).1
+
+/-- `parseAuthority` only accepts authorities made of such bytes, and its host is `parseHost` of the part
+behind the last `@` -/
+theorem parseAuthority_some {auth hs : List Char} (h : parseAuthority auth = some hs) :
+    (∀ c ∈ auth, safeC c) ∧ parseHost (afterLast '@' auth) = some hs := by
+  unfold parseAuthority at h
+  split at h
+  · rename_i hat
+    split at h
+    · cases h
+    · rename_i h0 hph
+      split at h
+      · rename_i hui
+        simp at h; subst h
+        refine ⟨?_, hph⟩
+        intro c hc
+        rw [split_last hat] at hc
+        simp only [List.mem_append, List.mem_cons] at hc
+        simp only [Bool.and_eq_true, List.all_eq_true] at hui
+        rcases hc with hc | rfl | hc
+        · exact safeC_of_userinfoChar (hui.1 c hc)
+        · exact safeC_at
+        · exact parseHost_safe hph c hc
+      · cases h
+  · rename_i hat
+    rw [afterLast_of_not_mem hat]
+    exact ⟨parseHost_safe h, h⟩
+
+/-! ### browser host state vs. Go `Hostname()` -/
+
+theorem hostScan_append (b : Bool) (l : List Char) : (hostScan b l).1 ++ (hostScan b l).2 = l := by
+  induction l generalizing b with
+  | nil => rfl
+  | cons c cs ih =>
+    unfold hostScan
+    split
+    · rfl
+    · simp [ih]
+
+theorem hostScan_snd (b : Bool) (l : List Char) :
+    (hostScan b l).2 = [] ∨ ∃ t, (hostScan b l).2 = ':' :: t := by
+  induction l generalizing b with
+  | nil => left; rfl
+  | cons c cs ih =>
+    unfold hostScan
+    split
+    · rename_i h; right; exact ⟨cs, by rw [h.1]⟩
+    · exact ih _
+
+theorem bPortOK_cases {bp : List Char} (h : bPortOK bp = true) (h2 : bp = [] ∨ ∃ t, bp = ':' :: t) :
+    bp = [] ∨ ∃ ds, bp = ':' :: ds ∧ allDigits ds = true := by
+  rcases h2 with rfl | ⟨t, rfl⟩
+  · left; rfl
+  · right
+    simp only [bPortOK, Bool.and_eq_true] at h
+    exact ⟨t, rfl, h.1.2⟩
+
+theorem mem_lower_of_fixed {c : Char} {l : List Char} (hc : lowerC c = c) (h : c ∈ l) : c ∈ lower l := by
+  unfold lower
+  rw [List.mem_map]
+  exact ⟨c, h, hc⟩
+
+theorem no_forbidden {l : List Char} (h : (lower l).any forbiddenDomain = false) :
+    ':' ∉ l ∧ '[' ∉ l := by
+  rw [List.any_eq_false] at h
+  constructor
+  · intro hm
+    exact h ':' (mem_lower_of_fixed (by decide) hm) (by decide)
+  · intro hm
+    exact h '[' (mem_lower_of_fixed (by decide) hm) (by decide)
+
+theorem allDigits_no {ds : List Char} (h : allDigits ds = true) : ':' ∉ ds ∧ ']' ∉ ds ∧ '%' ∉ ds := by
+  simp only [allDigits, List.all_eq_true] at h
+  refine ⟨fun hm => (digit_facts (h _ hm)).1 rfl, fun hm => (digit_facts (h _ hm)).2.1 rfl,
+    fun hm => (digit_facts (h _ hm)).2.2 rfl⟩
+
+theorem stripBrackets_id {l : List Char} (h : '[' ∉ l) : stripBrackets l = l := by
+  unfold stripBrackets
+  split
+  · rename_i hh
+    cases l with
+    | nil => simp at hh
+    | cons a as =>
+      simp at hh
+      exact absurd (hh.1 ▸ List.mem_cons_self) h
+  · rfl
+
+theorem getLast_wrap (inner : List Char) : ('[' :: inner ++ [']']).getLast? = some ']' := by
+  have : '[' :: inner ++ [']'] = ('[' :: inner) ++ [']'] := rfl
+  rw [this, List.getLast?_concat]
+
+theorem stripBrackets_wrap (inner : List Char) : stripBrackets ('[' :: inner ++ [']']) = inner := by
+  unfold stripBrackets
+  rw [if_pos ⟨rfl, getLast_wrap inner⟩]
+  have : '[' :: inner ++ [']'] = ('[' :: inner) ++ [']'] := rfl
+  simp
+
+/-- shape of a list with known, different first and last element -/
+theorem wrap_shape {l : List Char} {a b : Char} (h1 : l.head? = some a) (h2 : l.getLast? = some b) (hab : a ≠ b) :
+    l = a :: (l.drop 1).dropLast ++ [b] := by
+  obtain ⟨ys, rfl⟩ := List.getLast?_eq_some_iff.mp h2
+  cases ys with
+  | nil => simp at h1; exact absurd h1.symm hab
+  | cons y ys' =>
+    simp at h1; subst h1
+    simp
+
+theorem hostname_plain {d : List Char} (h1 : ':' ∉ d) (h2 : '[' ∉ d) : hostname d = d := by
+  unfold hostname
+  rw [if_neg (fun h => h1 h.1)]
+  exact stripBrackets_id h2
+
+theorem hostname_port {d ds : List Char} (h2 : '[' ∉ d) (hd : allDigits ds = true) :
+    hostname (d ++ ':' :: ds) = d := by
+  have hn := (allDigits_no hd).1
+  unfold hostname
+  rw [afterLast_append d ds hn, beforeLast_append d ds hn]
+  rw [if_pos ⟨by simp, by simp [validOptionalPort, hd]⟩]
+  exact stripBrackets_id h2
+
+theorem host_agree_domain {bh bp hs : List Char} (h : parseHost (bh ++ bp) = some hs) (hne : bh ≠ [])
+    (hhead : bh.head? ≠ some '[') (hbp : bp = [] ∨ ∃ ds, bp = ':' :: ds ∧ allDigits ds = true)
+    (hforb : (lower (pctDecode bh)).any forbiddenDomain = false) :
+    lower (pctDecode bh) = lower (hostname hs) := by
+  have hh : (bh ++ bp).head? ≠ some '[' := by
+    cases bh with
+    | nil => exact absurd rfl hne
+    | cons a as => simpa using hhead
+  unfold parseHost at h
+  rw [if_neg hh] at h
+  split at h
+  · cases h
+  · obtain ⟨hok, rfl⟩ := unescapeHost_some h
+    rcases hbp with rfl | ⟨ds, rfl, hds⟩
+    · simp only [List.append_nil] at hok ⊢
+      rw [pctDecode_eq_goDecode hok] at hforb ⊢
+      obtain ⟨n1, n2⟩ := no_forbidden hforb
+      rw [hostname_plain n1 n2]
+    · obtain ⟨hok1, _, hdec⟩ := hostOK_split_colon hok
+      rw [pctDecode_eq_goDecode hok1] at hforb ⊢
+      obtain ⟨n1, n2⟩ := no_forbidden hforb
+      have hnp : '%' ∉ (':' :: ds) := by
+        intro hm
+        cases hm with
+        | tail _ hm => exact (allDigits_no hds).2.2 hm
+      rw [hdec, goDecode_of_no_pct hnp, hostname_port n2 hds]
+
+
+theorem host_agree_bracket {inner bp hs : List Char}
+    (h : parseHost ('[' :: inner ++ [']'] ++ bp) = some hs)
+    (hbp : bp = [] ∨ ∃ ds, bp = ':' :: ds ∧ allDigits ds = true)
+    (hall : inner.all ipv6Char = true) :
+    hostname hs = inner := by
+  simp only [List.all_eq_true] at hall
+  have hnp : '%' ∉ inner := fun hm => (ipv6Char_facts (hall _ hm)).1 rfl
+  have hnr : ']' ∉ inner := fun hm => (ipv6Char_facts (hall _ hm)).2.1 rfl
+  have hbpr : ']' ∉ bp ∧ '%' ∉ bp := by
+    rcases hbp with rfl | ⟨ds, rfl, hds⟩
+    · simp
+    · have := allDigits_no hds
+      constructor
+      · intro hm; cases hm with | tail _ hm => exact this.2.1 hm
+      · intro hm; cases hm with | tail _ hm => exact this.2.2 hm
+  have hshape : '[' :: inner ++ [']'] ++ bp = ('[' :: inner) ++ ']' :: bp := by simp
+  have hpct : '%' ∉ ('[' :: inner ++ [']'] ++ bp) := by
+    simp only [List.cons_append, List.mem_cons, List.mem_append, List.not_mem_nil, or_false, not_or]
+    refine ⟨by decide, ⟨hnp, by decide⟩, hbpr.2⟩
+  unfold parseHost at h
+  rw [if_pos (by simp)] at h
+  unfold parseBracketHost at h
+  rw [if_pos (by simp)] at h
+  rw [hshape, afterLast_append _ _ hbpr.1, beforeLast_append _ _ hbpr.1] at h
+  split at h
+  · cases h
+  · have hsp : splitAtPct25 ('[' :: inner) = none := by
+      apply splitAtPct25_none
+      intro hm
+      cases hm with | tail _ hm => exact hnp hm
+    rw [hsp] at h
+    simp only at h
+    obtain ⟨_, rfl⟩ := unescapeHost_some h
+    rw [← hshape, goDecode_of_no_pct hpct]
+    rcases hbp with rfl | ⟨ds, rfl, hds⟩
+    · simp only [List.append_nil]
+      unfold hostname
+      have hinv : ¬ (':' ∈ '[' :: inner ++ [']'] ∧
+          validOptionalPort (':' :: afterLast ':' ('[' :: inner ++ [']'])) = true) := by
+        intro hc
+        have e : '[' :: inner ++ [']'] = ('[' :: inner) ++ [']'] := rfl
+        rw [e, afterLast_snoc _ (by decide)] at hc
+        have := hc.2
+        simp [validOptionalPort, allDigits, isDigit] at this
+      rw [if_neg hinv]
+      exact stripBrackets_wrap inner
+    · have hn := (allDigits_no hds).1
+      unfold hostname
+      rw [afterLast_append _ ds hn, beforeLast_append _ ds hn]
+      rw [if_pos ⟨by simp, by simp [validOptionalPort, hds]⟩]
+      exact stripBrackets_wrap inner
+
+
+/-- **Host agreement**: on a `host[:port]` that Go's `parseHost` accepts, the browser's host state
+either fails or ends at the host name Go reports (lower-cased) -/
+theorem host_agree {hp hs : List Char} (h : parseHost hp = some hs) :
+    bHostPort hp = .fail ∨ bHostPort hp = .domain (lower (hostname hs)) ∨
+      bHostPort hp = .ipv6 (lower (hostname hs)) := by
+  unfold bHostPort
+  have happ := hostScan_append false hp
+  have hsnd := hostScan_snd false hp
+  generalize hostScan false hp = sc at happ hsnd
+  obtain ⟨bh, bp⟩ := sc
+  simp only at happ hsnd ⊢
+  subst happ
+  split
+  · left; rfl
+  · rename_i hport
+    have hport' : bPortOK bp = true := by simpa using hport
+    have hbp := bPortOK_cases hport' hsnd
+    unfold bHost
+    split
+    · left; rfl
+    · rename_i hne
+      split
+      · rename_i hhead
+        split
+        · left; rfl
+        · rename_i hlast
+          have hlast' : bh.getLast? = some ']' := by simpa using hlast
+          split
+          · rename_i hall
+            right; right
+            have hsh := wrap_shape hhead hlast' (by decide)
+            rw [hsh] at h
+            rw [host_agree_bracket h hbp hall]
+          · left; rfl
+      · rename_i hhead
+        split
+        · left; rfl
+        · rename_i hforb
+          right; left
+          have hforb' : (lower (pctDecode bh)).any forbiddenDomain = false := by simpa using hforb
+          rw [host_agree_domain h hne hhead hbp hforb']
+
 end KM.Redirect
